@@ -201,7 +201,7 @@ def render_lines(rng, tier: str, budget, all_fns=None, eols_quick=((0, "\n"), (2
     for t in trees_upto(bound, leaves, tags):
         if t[0] != "tag":
             continue
-        for (i, e) in cfgs:
+        for (i, e) in (cfgs if count_nodes(t) <= 4 else cfgs[:2]):
             lines.append(f"render_tag {enode(t)} {i} {es(e)}")
         n_ex += 1
     scopes.append({"scope": f"all tag-rooted trees with <= {bound} nodes over {len(tags or small_tags())} tag kinds x "
